@@ -39,21 +39,7 @@ theorem field_ranges (t : Int) :
     (0 ≤ Spec.MonthFromTime t ∧ Spec.MonthFromTime t ≤ 11) ∧ (1 ≤ Spec.DateFromTime t ∧ Spec.DateFromTime t ≤ 31) ∧
     (0 ≤ Spec.WeekDay t ∧ Spec.WeekDay t ≤ 6) ∧ (0 ≤ Spec.HourFromTime t ∧ Spec.HourFromTime t ≤ 23) ∧
     (0 ≤ Spec.MinFromTime t ∧ Spec.MinFromTime t ≤ 59) ∧ (0 ≤ Spec.SecFromTime t ∧ Spec.SecFromTime t ≤ 59) ∧
-    (0 ≤ Spec.msFromTime t ∧ Spec.msFromTime t ≤ 999) := by
-  have hm := monthFromTime_range t
-  have hr := dayWithinYear_range t
-  have hl := inLeapYear_01 t
-  refine ⟨hm, ?_, ?_, ?_, ?_, ?_, ?_⟩
-  · rw [dateFromTime_eq]
-    have hmo : Spec.MonthFromTime t = monthOf (Spec.DayWithinYear t) (Spec.InLeapYear t) := rfl
-    generalize Spec.MonthFromTime t = m at *
-    generalize Spec.DayWithinYear t = d at *
-    generalize Spec.InLeapYear t = l at *
-    subst hmo
-    unfold monthOf
-    repeat' split
-    all_goals (simp only [Spec.monthStart]; omega)
-  all_goals (simp only [Spec.WeekDay, Spec.HourFromTime, Spec.MinFromTime, Spec.SecFromTime, Spec.msFromTime]; omega)
+    (0 ≤ Spec.msFromTime t ∧ Spec.msFromTime t ≤ 999) := Lem.field_ranges t
 
 /-- §15.9.1.12 step 7: the `t` that MakeDay is told to find exists and is the one `Spec.MakeDay` uses -/
 theorem makeDay_finds_t (y m : Int) :
@@ -220,6 +206,23 @@ theorem setter_nan (k : Setter) (t : Int) (args : List FV) (hk : k ≠ .time) (h
         simp [Setter.limit] at hlen hk hx <;>
         simp [toSpec, Spec.argOr] <;> (repeat' split) <;> (first | (simp_all; done) | (rcases hx with rfl | rfl | rfl | rfl <;> simp_all))
 
+
+-- ================================================================ ISO-8601 strings
+
+/-- toISOString / toJSON of a valid date whose year is 0..9999 is the §15.9.1.15 string (¬Dev iso_expanded_year) -/
+theorem iso_format_eq (t : Int) (hy0 : 0 ≤ Spec.YearFromTime t) (hy1 : Spec.YearFromTime t ≤ 9999) :
+    toISOString (validState t) = .ok (Spec.isoString t) ∧ toJSON (validState t) = .ok (Spec.isoString t) := by
+  have := Lem.iso_format_eq t hy0 hy1
+  simp [toISOString, toJSON, validState, this]
+
+/-- Date.parse(d.toISOString()) = d.getTime(): the string produced for a year in 0..9999 parses back to t, all t -/
+theorem iso_roundtrip (t : Int) (hy0 : 0 ≤ Spec.YearFromTime t) (hy1 : Spec.YearFromTime t ≤ 9999) :
+    parseOfISO (validState t) = Spec.parseOfISO t := by
+  have := Lem.iso_roundtrip t hy0 hy1
+  simp [parseOfISO, toISOString, validState, this, Spec.parseOfISO]
+
+/-- the hypothesis is met on both sides of the epoch (years 1969 and 2024) -/
+example : 0 ≤ Spec.YearFromTime (-1) ∧ Spec.YearFromTime (-1) ≤ 9999 ∧ 0 ≤ Spec.YearFromTime 1719792000000 ∧ Spec.YearFromTime 1719792000000 ≤ 9999 := by decide +kernel
 
 -- ================================================================ deviation regions: kernel-checked witnesses
 
